@@ -84,14 +84,10 @@ static inline void inst_hook(void)
 		__CPROVER_assume(mono(G_j + 1)); /*A:precondition-instantiation*/
 	}
 }
-#define VERIF_LOAD_HOOK(a)	do { if ((void *)(a) != G_head_addr && (void *)(a) != G_tail_addr) { inst_hook(); G_mb_since_qload = 0; } } while (0)
+static inline void load_hook(void *a) { if (a != G_head_addr && a != G_tail_addr) { inst_hook(); G_mb_since_qload = 0; } }
+#define VERIF_LOAD_HOOK(a)	load_hook((void *)(a))
 #endif
 
-static inline void evt(int kind, void *addr)
-{
-	if (kind == EV_MB_)
-		;
-}
 #define VERIF_EVT(kind, addr, mo, val) verif_evt((kind), (void *)(addr))
 static inline void verif_evt(int kind, void *addr);
 #include <verif/atomics_seq.h>
@@ -127,11 +123,13 @@ static void verif_call(void *f, void *a)
 	VERIF_ASSERT(f == G_fct[G_j], "decode: function of the j-th call is the j-th queued function");
 	VERIF_ASSERT(a == G_p[G_j], "decode: argument of the j-th call is exactly the j-th queued argument");
 	if (G_j == 0) G_gp_at_call = G_gp;
+#ifdef DECODE_MODE
 	VERIF_COVER(G_j == 2 && G_kind[0] == 3 && G_kind[1] == 1 && G_kind[2] == 2);
 	VERIF_COVER(G_j >= 1 && ((G_tail0 + G_off[G_j]) & QMASK) == QMASK && G_kind[G_j] == 3);	/* straddles the wrap */
 	VERIF_COVER(((unsigned long) a & 1) && a != MARK);
 	VERIF_COVER(a == MARK);
 	VERIF_COVER(f == MARK);
+#endif
 	G_j++;
 }
 
